@@ -1441,7 +1441,10 @@ func main() {
 	r.Rule = "pure-helper stream (KeyPrefixUpperBound over all prefixes of length <= 4 over {00,01,7f,fe,ff}, ConcatBytes, CopyBytes, " +
 		"GetIterDirection) + random histories (40 ops; every second one over TWO store trees with Copy/CopyBatched between and within them) over view trees of depth <= 3 and wrapper stacks of depth <= 3, keys/prefixes/realms over " +
 		"{00,01,7f,ff} of length 0..3, values of length 0..4, both directions + default; non-trivial = at least two distinct " +
-		"realms created, one iteration reporting >= 2 entries and three successful mutations; distinct by sha256 of the op lines"
+		"realms created, one iteration reporting >= 2 entries and three successful mutations; distinct by sha256 of the op lines; zero-length " +
+		"arguments are nil slices half of the time; + memory stream (600 histories of ~80 requests in which every byte slice is a numbered buffer " +
+		"the caller holds, overwrites and reuses at any time, over a random wrapper stack; non-trivial = at least three caller writes and one " +
+		"iteration handing out >= 2 entries)"
 	if lines := r.ReplayLines(); lines != nil {
 		replaying = true
 		if strings.HasPrefix(lines[0], "m ") {
